@@ -2,6 +2,7 @@ import WhVerif.Lemmas.C09
 import WhVerif.Lemmas.C09PseudoInst
 import WhVerif.Lemmas.C09PseudoOrder
 import WhVerif.Lemmas.C02Compose
+import WhVerif.Lemmas.C09File
 /-!
 # C09 — PS and HP encodings are equivalent, round-trip, and never mix old and new phase
 
@@ -37,71 +38,8 @@ theorem decode_written (cfg : Cfg) (hr : cfg.repaired = true) (hm : cfg.mav = fa
     (n : String) (t : Target) (hft : findTarget cfg n = some t) (c : Call) (hwf : WfCall r.format c) :
     callPhases (writeRecord cfg prev r).record.format (finalCall cfg prev r n c) =
       .ok (if reaches cfg prev r && cfg.tag == .HP then written false t r.pos else none,
-           if reaches cfg prev r && cfg.tag == .PS then written false t r.pos else none) := by
-  have hHP0 := cleared_get_HP cfg hr r.format c hwf
-  have hph0 := cleared_phased cfg hr r.format c hwf
-  have hcanon : gcode (clearPhasing cfg r.format c).gt ≠ [] →
-      (clearPhasing cfg r.format c).gt = some ((gcode (clearPhasing cfg r.format c).gt).map some) := by
-    rw [cleared_gt cfg hr]; exact unphaseGt_canonical c
-  have hfin : finalCall cfg prev r n c =
-      if reaches cfg prev r then (updateCall cfg t r (clearPhasing cfg r.format c)).1 else clearPhasing cfg r.format c := by
-    simp only [finalCall, hft]
-  rw [hfin, writeRecord_format]
-  generalize clearPhasing cfg r.format c = c0 at hHP0 hph0 hcanon
-  by_cases hreach : reaches cfg prev r = true
-  · simp only [hreach, if_true, Bool.true_and]
-    -- facts about the call after the change step
-    have hf1 := changeStep_fields cfg t r c0
-    have hp1 := changeStep_phased cfg t r c0 hph0
-    have hHP1 : (changeStep cfg t r c0).1.get "HP" = .missing := by simpa [Call.get, hf1] using hHP0
-    rw [updateCall_fst]
-    -- the unphased outcome, common to several branches
-    have hun : callPhases (addKey r.format cfg.tag.key) ((changeStep cfg t r c0).1.set cfg.tag.key .missing) = .ok (none, none) := by
-      have h1 : ((changeStep cfg t r c0).1.set cfg.tag.key .missing).get "HP" = .missing := by
-        cases htag : cfg.tag
-        · rw [Call.get_set_other _ _ _ _ (by decide)]; exact hHP1
-        · exact Call.get_set_same _ _ _
-      have h2 : extractGTPS (addKey r.format cfg.tag.key) ((changeStep cfg t r c0).1.set cfg.tag.key .missing) = none :=
-        extractGTPS_unphased _ _ (by simpa using hp1)
-      simp [callPhases, extractHP_missing _ h1, h2]
-    cases hcomp : alookup t.comps r.pos with
-    | none =>
-      simp only [written, hcomp]
-      rw [hun]; cases cfg.tag <;> simp
-    | some comp =>
-      cases hp : lookupPhase cfg.mav t r.pos with
-      | none =>
-        have hp' : lookupPhase false t r.pos = none := by rw [← hm]; exact hp
-        simp only [written, hcomp, hp']
-        rw [hun]; cases cfg.tag <;> simp
-      | some p =>
-        have hp' : lookupPhase false t r.pos = some p := by rw [← hm]; exact hp
-        have hhet := changeStep_isHet cfg t r c0 p hp
-        simp only [written, hcomp, hp', hhet]
-        cases hh : isHom (sortNat p) with
-        | true =>
-          simp only [Bool.not_true, Bool.false_eq_true, if_false]
-          rw [hun]; cases cfg.tag <;> simp
-        | false =>
-          simp only [Bool.not_false, if_true]
-          have hl := lookupPhase_length hp
-          obtain ⟨h01, hs01⟩ := het01 hl (lookupPhase_alleles hp') hh
-          have hgt1 := changeStep_gt_sorted cfg hr t r c0 p hp hcanon
-          rw [hs01] at hgt1
-          cases htag : cfg.tag with
-          | PS =>
-            obtain ⟨a, b, rfl⟩ := pair_of_length_two hl
-            have hab := het_pair hh
-            have hHPs : (setPS (changeStep cfg t r c0).1 comp [a, b]).get "HP" = .missing := by
-              simp only [setPS, Call.get]
-              rw [fget_fset_other _ _ _ _ (by decide)]
-              exact hHP1
-            simp [callPhases, setTag, Tag.key, extractHP_missing _ hHPs, extractGTPS_setPS _ _ _ _ _ hab]
-          | HP =>
-            have hph : (setHP (changeStep cfg t r c0).1 comp p).phased = false := by simpa [setHP] using hp1
-            simp [callPhases, setTag, Tag.key, extractHP_setHP _ comp p hgt1 h01, extractGTPS_unphased _ _ hph]
-  · simp only [hreach, Bool.false_eq_true, if_false, Bool.false_and]
-    simp [callPhases, extractHP_missing _ hHP0, extractGTPS_unphased _ _ hph0]
+           if reaches cfg prev r && cfg.tag == .PS then written false t r.pos else none) :=
+  decode_written_lemma cfg hr hm prev r n t hft c hwf
 
 /-- `phase_detected`-free view of one call: what the reader stores (GT/PS wins over HP when both fire) -/
 def decoded (x : Except Err (Option Phase × Option Phase)) : Option Phase :=
@@ -348,5 +286,299 @@ example : (blockRows exRows (some 7)).length > 1 ∧ (blockRows exRows (some 9))
 example :=
   pseudo_reads_reproduce_sets exRows (fun _ => 20) [] (by decide) (by decide) (fun _ => by decide)
     (blocksAsReads 2 exRows) (List.Perm.refl _) (pseudo_reads_emitted_sorted exRows (by decide))
+
+/-! ### file level: the reader on whole chromosomes, the writer as it is now, and their compositions
+(`Model/C09File.lean`, `Lemmas/C09File.lean`) -/
+
+/-- **reader_ploidy_refines**.  The reader with the ploidy bookkeeping (`readChromP`, = `_process_single_chromosome` with
+    `phases=True`) either raises or returns exactly what the ploidy-free model `readChrom` returns; the ploidy, once known,
+    never changes (it is carried to the next chromosome by `readFile`). -/
+theorem reader_ploidy_refines (os : Bool) (rs : List Record) (st st' : Option Enc) (pl pl' prev : Option Nat) (rows : List Row)
+    (h : readChromP os st pl prev rs = .ok (st', pl', rows)) :
+    readChrom os st prev rs = .ok (st', rows) ∧ ∀ q, pl = some q → pl' = some q :=
+  ⟨(readChromP_ok os rs h).1, (readChromP_ok os rs h).2.1⟩
+
+/-- **reader_rows_sorted**.  A table the reader returns has strictly increasing positions — one row per position, namely
+    for the first record of the position that survives the skipping rules (`accepted`) — whatever the file contains. -/
+theorem reader_rows_sorted (os : Bool) (rs : List Record) (st st' : Option Enc) (prev : Option Nat) (rows : List Row)
+    (h : readChrom os st prev rs = .ok (st', rows)) :
+    rows.Pairwise (fun a b => a.pos < b.pos) ∧ rows.map (·.pos) = (accepted os prev rs).map (·.pos) :=
+  ⟨(readChrom_sorted os rs h).1, (readChrom_sorted os rs h).2.2⟩
+
+/-- **reader_phase_is_genotype_order**.  In a table the ploidy-aware reader returns, the phase stored for a heterozygous
+    diploid call consists of the two alleles of its genotype in one of the two orders — for both encodings, any HP field
+    order, phase-set ids that are not positions, a missing PS value: malformed HP values and phases of another ploidy
+    make the reader raise instead (`Err.hpFormat`, `Err.ploidy`). -/
+theorem reader_phase_is_genotype_order (os : Bool) (rs : List Record) (st st' : Option Enc) (pl pl' prev : Option Nat)
+    (rows : List Row) (h : readChromP os st pl prev rs = .ok (st', pl', rows)) :
+    ∀ row ∈ rows, ∀ x ∈ row.calls, ∀ p, x.2 = some p → ∀ a b, x.1 = [a, b] → a ≠ b →
+      p.alleles = [some a, some b] ∨ p.alleles = [some b, some a] :=
+  (readChromP_ok os rs h).2.2
+
+/-- **writer_switch_on_is_repaired_writer**.  `PhasedVcfWriter.write` as it is now with `remove_existing_phasing=True`
+    (what `whatshap phase` uses) is the repaired writer of `Model/C04.lean`: every theorem above about
+    `writeRecord`/`writeChrom` with `repaired = true` is a theorem about the current code. -/
+theorem writer_switch_on_is_repaired_writer (cfg : Cfg) (prev : Option Nat) (rs : List Record) :
+    writeChromX true cfg prev rs = writeChrom { cfg with repaired := true } prev rs :=
+  writeChromX_true cfg rs prev
+
+/-- **writer_switch_off_keeps**.  With `remove_existing_phasing=False` (haplotagphase) a record the writer does not tag is
+    written back unchanged, and in a tagged record the call of a target sample that is GT-phased and has no phase in this
+    run keeps its genotype, its phased flag and all its values. -/
+theorem writer_switch_off_keeps (cfg : Cfg) (prev : Option Nat) (r : Record) :
+    (reaches cfg prev r = false → (writeRecordX false cfg prev r).record = r) ∧
+    ∀ t c, c.phased = true → lookupPhase cfg.mav t r.pos = none → updateCallX false cfg t r c = (c, none) :=
+  ⟨fun h => by rw [writeRecordX_false_unreached cfg prev r h], fun t c h1 h2 => updateCallX_false_keeps cfg t r c h1 h2⟩
+
+/-- **F65 witness** (keep mode, `remove_existing_phasing=False`, as haplotagphase uses the writer): the input call is HP-phased
+    (`0/1`, `HP=5-2,5-1`, e.g. written by `phase --tag HP`); tagging it with PS as coded leaves HP next to the new phased GT/PS —
+    both decoders fire and the reader raises `MixedPhasingError` on the written record; after `fixes/F65.patch`
+    (`writeRecordXF`) only the new statement decodes. -/
+theorem f65_witness :
+    let c : Call := ⟨some [some 0, some 1], false, [("HP", .hp [(5, 2), (5, 1)])]⟩
+    let r : Record := ⟨"s", 10, "A", ["C"], ["GT", "HP"], [("A", c)]⟩
+    (readChrom false none none [(writeRecordX false (f4Cfg .PS true) none r).record] = .error .mixed) ∧
+    ((readChrom false none none [(writeRecordXF (f4Cfg .PS true) none r).record]).toOption.map (fun x => x.2.map rowPhasesF) =
+      some [(10, [some ⟨some 11, [some 1, some 0]⟩])]) := by
+  constructor <;> rfl
+
+/-- **read_written_chrom**.  Reading back what `write` (current code, removal on) wrote for one chromosome: for ANY
+    position-sorted input — duplicate positions, records without or with several ALT alleles, non-SNVs under
+    `--only-snvs`, calls carrying phased GT / PS / HP in any combination — the reader raises no error (no
+    `MixedPhasingError`, no HP format error, no `VcfNotSortedError`), keeps exactly the input records `accepted` says, and
+    stores for every sample exactly the phase statement of this run (`expPhaseF` = `written` of the sample's target;
+    nothing for a non-target sample, which must not carry phase information of its own).  The two skip cascades (reader:
+    `prev_position` of every row; writer: `prev_pos` only of tagged records) agree on which record of a position is
+    phased. -/
+theorem read_written_chrom (cfg : Cfg) (hm : cfg.mav = false) (rs : List Record)
+    (hok : ∀ r ∈ rs, CallsOkF cfg r) (hs : rs.Pairwise (fun a b => a.pos ≤ b.pos)) :
+    ∃ st' rows, readChrom cfg.onlySnvs none none (outRecords (writeChromX true cfg none rs)) = .ok (st', rows) ∧
+      rows.map rowPhasesF =
+        (accepted cfg.onlySnvs none rs).map (fun r => (r.pos, r.calls.map (fun nc => expPhaseF cfg r.pos nc.1))) := by
+  rw [writeChromX_true]
+  have hok' : ∀ r ∈ rs, CallsOkF { cfg with repaired := true } r := fun r h => ⟨(hok r h).wf, (hok r h).hdr, (hok r h).other⟩
+  obtain ⟨st', rows, _, h1, h2⟩ :=
+    readChrom_writeChrom_general { cfg with repaired := true } rfl hm rs none none none (Or.inl rfl) hok' hs
+      (fun p hp => by cases hp) (fun p hp => by cases hp) (fun p hp => by cases hp)
+  exact ⟨st', rows, h1, h2⟩
+
+/-- **rephase_file_no_stale_phase**.  The chromosome loop of `run_whatshap` (`writeFile`: one `write` call per run of
+    records of a chromosome, with empty super-reads for a chromosome that was not requested): a chromosome without
+    targets is written back record for record; on every other one, whatever decodes from the call of a target sample
+    was written by this run. -/
+theorem rephase_file_no_stale_phase (groups : List (String × Cfg × List Record))
+    (hm : ∀ g ∈ groups, g.2.1.mav = false) (out : String × List Record) (ho : out ∈ writeFile groups) :
+    ∃ g ∈ groups, out.1 = g.1 ∧ (g.2.1.targets = [] → out.2 = g.2.2) ∧
+      out.2 = outRecords (writeChrom { g.2.1 with repaired := true } none g.2.2) ∧
+      ∀ o ∈ writeChrom { g.2.1 with repaired := true } none g.2.2,
+        ∃ prev' r, r ∈ g.2.2 ∧ o = writeRecord { g.2.1 with repaired := true } prev' r ∧
+          ∀ n t c, findTarget g.2.1 n = some t → clookup r.calls n = some c → WfCall r.format c →
+            ∃ c', clookup o.record.calls n = some c' ∧
+              ∀ hp gp, callPhases o.record.format c' = .ok (hp, gp) →
+                ∀ ph, (hp = some ph ∨ gp = some ph) → written false t r.pos = some ph := by
+  unfold writeFile at ho
+  obtain ⟨g, hg, rfl⟩ := List.mem_map.mp ho
+  obtain ⟨chrom, cfg, rs⟩ := g
+  refine ⟨(chrom, cfg, rs), hg, rfl, ?_, ?_, ?_⟩
+  · intro hno
+    simp only [writeChromX_true]
+    exact writeChrom_no_targets { cfg with repaired := true } hno none rs
+  · simp only [writeChromX_true]
+  · intro o hmem
+    exact rephase_no_stale_phase_chrom { cfg with repaired := true } rfl (hm _ hg) none rs o hmem
+
+open WhVerif.C01 WhVerif.C02 in
+/-- **phase_input_reproduces_sets**.  End to end for a phase-input VCF: if the ploidy-aware reader accepts the records of
+    a chromosome (`readChromP … = .ok …`) and the genotype codes are biallelic (the reader keeps only records with one ALT
+    allele), then the rows of any sample as `phased_blocks_as_reads` looks at them (`rowsOf`, any list of input variants)
+    satisfy ALL hypotheses that `pseudo_reads_reproduce_sets` makes about the table — sorted positions, phases `0|1` /
+    `1|0` on eligible rows — so that every phase set with at least two eligible variants is reproduced up to exchanging
+    its haplotypes.  What remains assumed: positive weights (a `PQ` of 0 gives weight 0) and that read selection keeps all
+    pseudo reads (`hsel`). -/
+theorem phase_input_reproduces_sets (os : Bool) (rs : List Record) (st' : Option Enc) (pl pl' : Option Nat) (rows : List Row)
+    (hread : readChromP os none pl none rs = .ok (st', pl', rows))
+    (hbi : ∀ row ∈ rows, ∀ x ∈ row.calls, ∀ a ∈ x.1, a ≤ 1)
+    (si : Nat) (iv : List VKey) (w : Nat → Nat) (recomb : List Nat) (hw : ∀ p, 0 < w p)
+    (tagged : List PRead) (hsel : tagged.Perm (blocksAsReads 2 (rowsOf rows si iv)))
+    (hord : tagged.Pairwise (fun x y => firstPos x ≤ firstPos y)) :
+    let vrows := rowsOf rows si iv
+    let I := pseudoInst vrows w recomb tagged
+    WF I ∧ ErrFree I (truthHap vrows) (srcOf tagged) ∧ dpCost I = some 0 ∧
+    (∃ β τ, witness I = some (β, τ)) ∧
+    ∀ β τ, totalCost I β τ = dpCost I →
+      ∀ b, (blockRows vrows b).length > 1 →
+        ∃ swap : Bool, ∀ v ∈ blockRows vrows b,
+          ∃ a, a ≤ 1 ∧ alleleAt 0 v = some a ∧ alleleAt 1 v = some (1 - a) ∧
+          ∃ c, c < I.ncols ∧ (pseudoCols vrows)[c]? = some v.pos ∧
+            getAlleles I c (restrict β (I.activeAt c)) (τ.getD c 0) =
+              some [if swap then (1 - a, a) else (a, 1 - a)] := by
+  obtain ⟨h1, _, h3⟩ := readChromP_ok os rs hread
+  exact pseudo_reads_reproduce_sets (rowsOf rows si iv) w recomb
+    (rowsOf_sorted (readChrom_sorted os rs h1).1 si iv) (rowsOf_biallelic h3 hbi si iv) hw tagged hsel hord
+
+/-! ### non-vacuity of the file-level theorems -/
+
+/-- sample A is phased (block 10: 1|0 at 10, 0|1 at 20, 1|0 at 40), sample B is not a target; `--tag HP --only-snvs` -/
+def exFileCfg : Cfg :=
+  ⟨.HP, true, false, false, ["A", "B"],
+   [⟨"A", [(10, 1), (20, 0), (40, 1)], [(10, 0), (20, 1), (40, 0)], [(10, 10), (20, 10), (40, 10)]⟩]⟩
+
+/-- a chromosome with a duplicate position (the second record carries stale phase), an insertion that `--only-snvs` skips
+    followed by an SNV at the same position, a multi-ALT record, and a call that is HP-phased in the input -/
+def exFileRecs : List Record :=
+  [⟨"1", 10, "A", ["C"], ["GT", "PS"], [("A", ⟨some [some 0, some 1], true, [("PS", .int 7)]⟩), ("B", ⟨some [some 0, some 0], false, []⟩)]⟩,
+   ⟨"2", 10, "A", ["G"], ["GT", "PS"], [("A", ⟨some [some 1, some 0], true, [("PS", .int 7)]⟩), ("B", ⟨some [some 0, some 1], false, []⟩)]⟩,
+   ⟨"3", 20, "A", ["AT"], ["GT", "PS"], [("A", ⟨some [some 0, some 1], true, [("PS", .int 7)]⟩), ("B", ⟨some [some 1, some 1], false, []⟩)]⟩,
+   ⟨"4", 20, "A", ["T"], ["GT"], [("A", ⟨some [some 1, some 0], false, []⟩), ("B", ⟨some [some 0, some 1], false, []⟩)]⟩,
+   ⟨"5", 30, "G", ["A", "T"], ["GT", "PS"], [("A", ⟨some [some 1, some 2], true, [("PS", .int 7)]⟩), ("B", ⟨some [some 0, some 0], false, []⟩)]⟩,
+   ⟨"6", 40, "A", ["C"], ["GT", "HP"], [("A", ⟨some [some 1, some 0], false, [("HP", .hp [(5, 2), (5, 1)])]⟩), ("B", ⟨none, false, []⟩)]⟩]
+
+example : (accepted true none exFileRecs).map (·.site) = ["1", "4", "6"] := by decide
+example : ∀ r ∈ exFileRecs, CallsOkF exFileCfg r := by
+  intro r hr; apply callsOkF_of_B; revert r; decide
+example : exFileRecs.Pairwise (fun a b => a.pos ≤ b.pos) := by decide
+/-- what the reader finds in the output: rows for the records "1", "4", "6" with exactly this run's statements for A -/
+example : (readChrom true none none (outRecords (writeChromX true exFileCfg none exFileRecs))).toOption.map
+      (fun x => x.2.map rowPhasesF) =
+    some [(10, [some ⟨some 11, [some 1, some 0]⟩, none]), (20, [some ⟨some 11, [some 0, some 1]⟩, none]),
+          (40, [some ⟨some 11, [some 1, some 0]⟩, none])] := by decide
+example := read_written_chrom exFileCfg rfl exFileRecs
+  (fun r hr => by apply callsOkF_of_B; revert r; decide) (by decide)
+/-- the stale statements of the skipped records "2", "3", "5" are gone from the output as well -/
+example : ((outRecords (writeChromX true exFileCfg none exFileRecs)).map fun r =>
+      (r.calls.head?).map (fun nc => (nc.2.phased, nc.2.get "PS"))) =
+    [some (false, .missing), some (false, .missing), some (false, .missing), some (false, .missing), some (false, .missing),
+     some (false, .missing)] := by decide
+/-- with `remove_existing_phasing=False` they stay -/
+example : ((outRecords (writeChromX false exFileCfg none exFileRecs)).map fun r =>
+      (r.calls.head?).map (fun nc => (nc.2.phased, nc.2.get "PS"))) =
+    [some (true, .int 7), some (true, .int 7), some (true, .int 7), some (false, .missing), some (true, .int 7),
+     some (false, .missing)] := by decide
+example : updateCallX false exFileCfg ⟨"A", [], [], []⟩ ⟨"2", 10, "A", ["G"], ["GT", "PS"], []⟩ ⟨some [some 1, some 0], true, [("PS", .int 7)]⟩
+    = (⟨some [some 1, some 0], true, [("PS", .int 7)]⟩, none) := by decide
+
+/-- a phase-input chromosome: HP with either field order on sorted and unsorted genotypes, interleaved blocks 5 and 9,
+    a homozygous call, a duplicate position -/
+def exPhaseRecs : List Record :=
+  [⟨"1", 10, "A", ["C"], ["GT", "HP"], [("S", ⟨some [some 0, some 1], false, [("HP", .hp [(5, 1), (5, 2)])]⟩)]⟩,
+   ⟨"2", 20, "A", ["C"], ["GT", "HP"], [("S", ⟨some [some 1, some 0], false, [("HP", .hp [(9, 1), (9, 2)])]⟩)]⟩,
+   ⟨"3", 30, "A", ["C"], ["GT", "HP"], [("S", ⟨some [some 0, some 1], false, [("HP", .hp [(5, 2), (5, 1)])]⟩)]⟩,
+   ⟨"4", 30, "A", ["G"], ["GT", "HP"], [("S", ⟨some [some 0, some 1], false, [("HP", .hp [(9, 1), (9, 2)])]⟩)]⟩,
+   ⟨"5", 40, "A", ["C"], ["GT", "HP"], [("S", ⟨some [some 1, some 1], false, [("HP", .missing)]⟩)]⟩,
+   ⟨"6", 50, "A", ["C"], ["GT", "HP"], [("S", ⟨some [some 0, some 1], false, [("HP", .hp [(9, 2), (9, 1)])]⟩)]⟩]
+
+def exPhaseRows : List Row :=
+  [⟨10, "A", "C", [([0, 1], some ⟨some 5, [some 0, some 1]⟩)]⟩, ⟨20, "A", "C", [([0, 1], some ⟨some 9, [some 1, some 0]⟩)]⟩,
+   ⟨30, "A", "C", [([0, 1], some ⟨some 5, [some 1, some 0]⟩)]⟩, ⟨40, "A", "C", [([1, 1], none)]⟩,
+   ⟨50, "A", "C", [([0, 1], some ⟨some 9, [some 1, some 0]⟩)]⟩]
+
+set_option linter.defProp false in
+def exPhase_read : readChromP false none none none exPhaseRecs = .ok (some .HP, some 2, exPhaseRows) := by rfl
+example : readFile false none [("chr1", exPhaseRecs), ("chr2", exPhaseRecs)] =
+    .ok (some 2, [("chr1", exPhaseRows), ("chr2", exPhaseRows)]) := by rfl
+/-- a one-field HP value on a diploid genotype, PS next to HP in one chromosome, a haploid call after diploid ones -/
+example : readChromP false none none none
+    [⟨"1", 10, "A", ["C"], ["GT", "HP"], [("S", ⟨some [some 0, some 1], false, [("HP", .hp [(5, 1)])]⟩)]⟩] = .error .ploidy := by rfl
+example : readChromP false none none none (exPhaseRecs ++
+    [⟨"7", 60, "A", ["C"], ["GT", "PS"], [("S", ⟨some [some 0, some 1], true, [("PS", .int 5)]⟩)]⟩]) = .error .mixed := by rfl
+example : readChromP false none none none (exPhaseRecs ++
+    [⟨"7", 60, "A", ["C"], ["GT"], [("S", ⟨some [some 1], false, []⟩)]⟩]) = .error .ploidy := by rfl
+example : readChromP false none none none
+    [⟨"1", 10, "A", ["C"], ["GT", "HP"], [("S", ⟨some [some 0, some 1], false, [("HP", .hp [(5, 1), (6, 2)])]⟩)]⟩] = .error .hpFormat := by rfl
+
+example := reader_ploidy_refines false exPhaseRecs none _ none _ none _ exPhase_read
+example := reader_phase_is_genotype_order false exPhaseRecs none _ none _ none _ exPhase_read
+example := reader_rows_sorted false exPhaseRecs none _ none _ (reader_ploidy_refines false exPhaseRecs none _ none _ none _ exPhase_read).1
+
+example : blocksAsReads 2 (rowsOf exPhaseRows 0 [(10, "A", "C"), (20, "A", "C"), (30, "A", "C"), (40, "A", "C"), (50, "A", "C")]) =
+    [(some 5, 0, [(10, some 0), (30, some 1)]), (some 5, 1, [(10, some 1), (30, some 0)]),
+     (some 9, 0, [(20, some 1), (50, some 1)]), (some 9, 1, [(20, some 0), (50, some 0)])] := by decide
+/-- the end-to-end theorem on the example (block 5 = {10, 30} and block 9 = {20, 50} interleaved) -/
+example :=
+  phase_input_reproduces_sets false exPhaseRecs _ none _ exPhaseRows exPhase_read (by decide) 0
+    [(10, "A", "C"), (20, "A", "C"), (30, "A", "C"), (40, "A", "C"), (50, "A", "C")] (fun _ => 20) [] (fun _ => by decide)
+    _ (List.Perm.refl _) (pseudo_reads_emitted_sorted _ (by decide))
+
+/-- the file loop: chr1 is phased, chr2 was not requested (no targets) and keeps its old phase -/
+example : (writeFile [("chr1", exFileCfg, exFileRecs), ("chr2", { exFileCfg with targets := [] }, exFileRecs)]).map
+      (fun g => g.2.map fun r => (r.calls.head?).map (fun nc => nc.2.phased)) =
+    [[some false, some false, some false, some false, some false, some false],
+     [some true, some true, some true, some false, some true, some false]] := by decide
+example := rephase_file_no_stale_phase [("chr1", exFileCfg, exFileRecs), ("chr2", { exFileCfg with targets := [] }, exFileRecs)]
+  (by decide)
+
+
+
+/-- **read_written_file**.  Whole files, ploidy included: `VcfReader.__iter__` with `phases=True` (`readFile`: `phase_detected`
+    reset per chromosome, ploidy carried along) on the output of the chromosome loop of `whatshap phase` (`writeFile`) raises
+    nothing — no `MixedPhasingError`, no `PloidyError`, no HP format error, no `VcfNotSortedError` — and returns, chromosome
+    by chromosome, exactly the rows `expRows` (the accepted input records with this run's phase statements), provided
+    every chromosome is position-sorted, its fully called genotypes are diploid, and calls of non-target samples carry
+    no phase information.  Chromosomes may be written with different target sets (e.g. none for a chromosome that
+    `--chromosome` excludes), may contain duplicate positions and records the reader skips. -/
+theorem read_written_file (os : Bool) (groups : List (String × Cfg × List Record)) (hg : ∀ g ∈ groups, GroupOk os g)
+    (pl : Option Nat) (hpl : pl = none ∨ pl = some 2) :
+    ∃ pl' tables, (pl' = none ∨ pl' = some 2) ∧ readFile os pl (writeFile groups) = .ok (pl', tables) ∧
+      tables.map (fun t => (t.1, t.2.map rowPhasesF)) =
+        groups.map (fun g => (g.1, expRows { g.2.1 with repaired := true } g.2.2)) :=
+  readFile_writeFile os groups hg hpl
+
+/-- non-vacuity: the example chromosome written twice (the second time without targets — which `GroupOk` only admits for
+    records without phase information, so an unphased copy is used) -/
+def exPlainRecs : List Record :=
+  [⟨"1", 10, "A", ["C"], ["GT"], [("A", ⟨some [some 0, some 1], false, []⟩), ("B", ⟨some [some 0, some 0], false, []⟩)]⟩,
+   ⟨"2", 10, "A", ["G"], ["GT"], [("A", ⟨some [some 1, some 0], false, []⟩), ("B", ⟨some [none, some 1], false, []⟩)]⟩]
+
+set_option linter.defProp false in
+def exGroupsOk : ∀ g ∈ [("chr1", exFileCfg, exFileRecs), ("chr2", { exFileCfg with targets := [] }, exPlainRecs)],
+    GroupOk true g := by
+  intro g hg
+  simp only [List.mem_cons, List.not_mem_nil, or_false] at hg
+  have hd : ∀ rs : List Record, (rs.all fun r => r.calls.all fun nc =>
+      match nc.2.gt with | some g => !(g.all Option.isSome) || g.length == 2 | none => true) = true →
+      ∀ r ∈ rs, ∀ nc ∈ r.calls, Dip nc.2.gt := by
+    intro rs h r hr nc hnc g' e hall
+    have := List.all_eq_true.mp (List.all_eq_true.mp h r hr) nc hnc
+    rw [e] at this
+    simp only [hall, Bool.not_true, Bool.false_or, beq_iff_eq] at this
+    exact this
+  rcases hg with rfl | rfl
+  · exact ⟨rfl, rfl, fun r hr => by apply callsOkF_of_B; revert r; decide, by decide, hd _ (by decide)⟩
+  · exact ⟨rfl, rfl, fun r hr => by apply callsOkF_of_B; revert r; decide, by decide, hd _ (by decide)⟩
+
+example := read_written_file true _ exGroupsOk none (Or.inl rfl)
+example : (readFile true none (writeFile [("chr1", exFileCfg, exFileRecs), ("chr2", { exFileCfg with targets := [] }, exPlainRecs)])).toOption.map
+      (fun x => (x.1, x.2.map fun t => (t.1, t.2.map rowPhasesF))) =
+    some (some 2, [("chr1", [(10, [some ⟨some 11, [some 1, some 0]⟩, none]), (20, [some ⟨some 11, [some 0, some 1]⟩, none]),
+                            (40, [some ⟨some 11, [some 1, some 0]⟩, none])]),
+                   ("chr2", [(10, [none, none])])]) := by rfl
+
+
+/-- **phase_input_reader_reads**.  `PhasedInputReader.read` restricted to the phase-input VCFs (`phaseInputReads`): the reads
+    a file contributes are, up to their qualities and names, `blocksAsReads` of the sample's rows in the table the file has
+    for the chromosome (`tableOf`: the last table of that chromosome) — i.e. the objects `pseudo_reads_*` and
+    `phase_input_reproduces_sets` talk about; a file without the sample contributes nothing; and the source ids of the files
+    (handed to read selection as preferred sources) are pairwise different, so the `(name, source id)` keys of
+    `ReadSet.add` cannot clash between two files that use the same phase-set ids. -/
+theorem phase_input_reader_reads (files : List (List PTable)) (nPaths : Nat) (chrom sample : String) (sid : Nat) (iv : List VKey) :
+    (phaseInputReads files nPaths chrom sample sid iv).2.Nodup ∧
+    ∀ (t : PTable) (src : Nat),
+      (pseudoReadsOf t sample iv src sid).map (fun r => (r.sourceId, r.sampleId, r.variants.map (fun v => (v.1, v.2.1)))) =
+        if t.samples.findIdx (· == sample) < t.samples.length then
+          (blocksAsReads 2 (rowsOf t.rows (t.samples.findIdx (· == sample)) iv)).map (fun x => (src, sid, x.2.2))
+        else [] :=
+  ⟨phaseInputReads_ids_nodup files nPaths chrom sample sid iv, fun t src => pseudoReadsOf_spec t sample iv src sid⟩
+
+/-- non-vacuity: two phase-input files with the same block ids; the second has the chromosome twice (the later table wins) and
+    PQ values; a third lacks the sample -/
+def exPT (q : List (List (Option Int))) (rows : List Row) (s : String) : PTable := ⟨"chr1", [s], rows, q⟩
+example : phaseInputReads
+      [[exPT [] exPhaseRows "S"], [exPT [] [] "S", exPT [[some 30], [none], [some 7], [none], [some 0]] exPhaseRows "S"], [exPT [] exPhaseRows "T"]]
+      1 "chr1" "S" 4 [(10, "A", "C"), (30, "A", "C"), (20, "A", "C"), (50, "A", "C")] =
+    ([⟨"S_phase_0_block_5", 1, 4, [(10, some 0, 20), (30, some 1, 20)]⟩, ⟨"S_phase_1_block_5", 1, 4, [(10, some 1, 20), (30, some 0, 20)]⟩,
+      ⟨"S_phase_0_block_9", 1, 4, [(20, some 1, 20), (50, some 1, 20)]⟩, ⟨"S_phase_1_block_9", 1, 4, [(20, some 0, 20), (50, some 0, 20)]⟩,
+      ⟨"S_phase_0_block_5", 2, 4, [(10, some 0, 30), (30, some 1, 7)]⟩, ⟨"S_phase_1_block_5", 2, 4, [(10, some 1, 30), (30, some 0, 7)]⟩,
+      ⟨"S_phase_0_block_9", 2, 4, [(20, some 1, 20), (50, some 1, 0)]⟩, ⟨"S_phase_1_block_9", 2, 4, [(20, some 0, 20), (50, some 0, 0)]⟩],
+     [1, 2, 3]) := by decide
 
 end WhVerif.Props.C09
